@@ -56,6 +56,8 @@ func (c *Calcium) doCreateWorkloads(ctx context.Context, opts *types.DeployOptio
 		engineParamsMap = map[string][]resourcetypes.Resources{}
 		// map[nodename][]Resources
 		workloadResourcesMap = map[string][]resourcetypes.Resources{}
+		// nodes whose resources have been allocated by the alloc step
+		allocatedNodenames = []string{}
 	)
 
 	_ = c.pool.Invoke(func() {
@@ -129,6 +131,7 @@ func (c *Calcium) doCreateWorkloads(ctx context.Context, opts *types.DeployOptio
 						if workloadResourcesMap[nodename], engineParamsMap[nodename], err = c.rmgr.Alloc(ctx, nodename, deploy, opts.Resources); err != nil {
 							return err
 						}
+						allocatedNodenames = append(allocatedNodenames, nodename)
 						processing := opts.GetProcessing(nodename)
 						if processingCommits[nodename], err = c.wal.Log(eventProcessingCreated, processing); err != nil {
 							return err
@@ -150,7 +153,11 @@ func (c *Calcium) doCreateWorkloads(ctx context.Context, opts *types.DeployOptio
 			// rollback: give back resources
 			func(ctx context.Context, failedOnCond bool) (err error) {
 				if failedOnCond {
-					return
+					// the alloc step can fail after some nodes have been allocated: give all of those back
+					rollbackMap = map[string][]int{}
+					for _, nodename := range allocatedNodenames {
+						rollbackMap[nodename] = utils.Range(len(workloadResourcesMap[nodename]))
+					}
 				}
 				for nodename, rollbackIndices := range rollbackMap {
 					if e := c.withNodePodLocked(ctx, nodename, func(ctx context.Context, _ *types.Node) error {
